@@ -11,6 +11,7 @@ size and the number of points are universally quantified.
 -/
 import Kap.Proofs.C07TreeLive
 import Kap.Proofs.C07TreeMeasure
+import Kap.Proofs.C07TreeCons
 namespace Kap.Props.C07Tree
 open Kap.C07 Kap.C07.Tree
 
@@ -102,18 +103,64 @@ example :
       [.write, .forkTake, .forkLock, .forkPut, .node 0 .take, .node 0 .put, .node 0 .put, .node 2 .take, .node 1 .take]).map
       (fun s => (s.nodes.map (·.got), s.nodes.map (·.owed), s.nodes.map (·.hand))) = some ([1, 1, 1], [0, 0, 0], [0, 1, 1]) := by decide
 
-/-! ### Stated, not proved, for trees -/
+/-! ### Exact accounting on trees -/
 
-/-- Exact accounting on a tree, per edge: what the source took is what was accepted minus what is still in the
-TaskMaster; what a forwarding node took is, for EACH child edge, in that edge, taken by the child, still owed by the
-forward loop, or among the messages whose forward loop was cut short (`dropped`). (Proved for chains:
-`Kap.Props.C07.accounting`; on trees checked by the correspondence runs only.) -/
-def accounting_tree_stmt : Prop :=
-  ∀ (cfg : Cfg) (par : List Nat) (kinds : List Kind) (n : Nat) (sched : List Act),
+/-- **Nothing disappears unaccounted, on every tree** — in every state reached by any schedule on any topology:
+what the source node took or still has in its input edge is what was accepted minus what is still in the TaskMaster
+(`write_points`, `forkPoint`'s hand) or was dropped there; and for EVERY edge parent → child of a forwarding parent,
+what the parent took is in the child's edge (`inq`), taken by the child (`got`), still owed to this child by the
+parent's forward loop (`owed`), or among the parent's `dropped` messages, whose forward loop was cut short (ErrAborted
+from an earlier child edge, the node failed, an aborted UDF): both bounds, so the count is exact whenever the parent
+dropped nothing. -/
+theorem accounting_tree (cfg : Cfg) (par : List Nat) (kinds : List Kind) (n : Nat) (sched : List Act) :
     let s := Tree.run cfg par (init kinds n) sched
     (∀ nd, s.nodes[0]? = some nd → s.accepted = s.lostIngest + s.ingest + s.forkHand + nd.inq + nd.got) ∧
     (∀ (p c : Nat) (nd x : Nd), isChild par p c = true → s.nodes[p]? = some nd → s.nodes[c]? = some x → fwd nd.kind = true →
-      x.inq + x.got + x.owed ≤ nd.got ∧ nd.got ≤ x.inq + x.got + x.owed + nd.dropped)
+      x.inq + x.got + x.owed ≤ nd.got ∧ nd.got ≤ x.inq + x.got + x.owed + nd.dropped) := by
+  intro s
+  have hc : TCons par s := tcons_run (tcons_init par kinds n) sched
+  constructor
+  · intro nd h0
+    have h1 := hc.src
+    have h2 := hc.nodeIn 0 nd h0
+    rw [h0] at h1
+    simp only [Option.map_some, Option.getD_some] at h1
+    unfold balIn at h2
+    omega
+  · intro p c nd x hpc hp hx hf
+    have h1 := (hc.edge p c nd x hpc hp hx).2.2.2 hf
+    have h2 := hc.nodeIn c x hx
+    unfold balIn at h2
+    omega
+
+/-- … and what a node took is what its output was handed, plus what is pending in its buffer, plus what it lost there
+(as `Kap.Props.C07.output_accounting`, on every tree). -/
+theorem output_accounting_tree (cfg : Cfg) (par : List Nat) (kinds : List Kind) (n : Nat) (sched : List Act) (j : Nat) (nd : Nd) :
+    let s := Tree.run cfg par (init kinds n) sched
+    s.nodes[j]? = some nd →
+    match nd.kind with
+    | .post => nd.got = nd.deliv
+    | .alert _ => nd.got = nd.deliv + nd.buf + nd.lost
+    | .influx _ => nd.got = nd.deliv + nd.hand + nd.buf + nd.lost
+    | _ => True := by
+  intro s hj
+  have hc : TCons par s := tcons_run (tcons_init par kinds n) sched
+  have h := hc.nodeOut j nd hj
+  unfold balOut at h
+  cases hk : nd.kind <;> simp_all <;> omega
+
+/-- Non-vacuity of the edge clause, with both bounds met: `stream → { failing node (at once) ; httpPost }`, the
+failing branch first in `outs`, edge buffers of one slot, 3 points: the third message finds the failed child's edge
+full and aborted, the forward loop ends with ErrAborted and the healthy sibling never sees it: the source took 3 and
+dropped 1, the sibling's edge collected 2 (per node: got, ent, dropped, owed). -/
+example :
+    (Tree.runStrict { cap := 1, viaClose := false, hookLock := false, alertLeak := false } [0, 0, 0] (init [.pass, .fail 0, .post] 3)
+      [.write, .forkTake, .forkLock, .forkPut, .node 0 .take, .node 0 .put, .node 0 .put, .node 1 .take, .node 1 .exit,
+       .write, .forkTake, .forkLock, .forkPut, .node 0 .take, .node 0 .put, .node 2 .take, .node 2 .put, .node 0 .put,
+       .write, .forkTake, .forkLock, .forkPut, .node 0 .take, .node 0 .putErr]).map
+      (fun s => s.nodes.map (fun nd => (nd.got, nd.ent, nd.dropped, nd.owed))) = some [(3, 3, 1, 0), (1, 2, 1, 0), (1, 2, 0, 0)] := by decide
+
+/-! ### Stated, not proved, for trees -/
 
 /-- Graceful stop delivers everything on a tree of pass / httpPost / alert nodes stopped by `TaskMaster.Close`: once
 the stop has returned and the goroutines are gone, every output in every branch has been handed exactly the accepted
